@@ -447,7 +447,7 @@ func RunCheck(o CheckOpts) int {
 			retry = append(retry, ob)
 		}
 	}
-	if len(retry) > 0 && len(retry) <= 8 {
+	if len(retry) > 0 && len(retry) <= 24 {
 		rsem := make(chan struct{}, 2)
 		for _, ob := range retry {
 			wg.Add(1)
